@@ -23,6 +23,7 @@ def generate(rng, tier):
                 # the same transform options for all 12 variants
                 c = FL.gen_filter_case(rng, tier, R, Q, channel=2, lorch=bool(rep & 1), omitted=bool(rep & 2))
                 c["flagform"] = ["bool", "npbool", "int"][rep % 3]
+                c["unc_form"] = ["list", "array"][rep % 2]
                 if False:      # (not generated: at Q <= 0 the conversions are not invertible and the variants differ by design)
                     # a Q grid reaching below zero (after a Q offset): there every variant but the Q[S(Q)-1] ones reports the
                     # conventional "no information" value with zero uncertainty
